@@ -64,8 +64,17 @@ def enumerate_states(tier, seed):
         else:
             states += gs.enumerate_pair(ta, tb, 1)
             states += _red_dev2(ta, tb)
+    # dense family for the type-coded Nesterov-primitives kernel: 25 pairs x 16x16 orientations x placements x directions
+    from . import c02
+    oris = [0, 3, 5, 9, 13, 17, 21, 24, 25, 26, 27, 28, 29, 30, 31, 11]
+    for ta, tb in itertools.product(SPECIAL, SPECIAL):
+        for oa, ob, pl, u in itertools.product(oris, oris, (0, 4, 13, 3), (0, 28, 29)):
+            d = {"ta": ta, "tb": tb, "only": "primitives"}
+            d.update({n: 0 for n in gs.COORDS})
+            d.update(oa=oa, ob=ob, pl=pl, u=u)
+            states.append(d)
     meta = {"bound_completed": ("deviation bound 2 over the full alphabets, all 100 ordered type pairs" if tier == "thorough" else
-                                "deviation bound 1 over the full alphabets + deviation bound 2 over reduced alphabets, all 100 ordered type pairs"),
+                                "deviation bound 1 over the full alphabets + deviation bound 2 over reduced alphabets, all 100 ordered type pairs + dense Nesterov-primitives family (25 pairs x 256 orientation pairs x 12)"),
             "exhaustive": True}
     return states, meta
 
@@ -130,8 +139,9 @@ def run_state(desc):
             instr.uninstrument([A, B])
         return None
 
+    only_prim = desc.get("only") == "primitives"
     # ---- original GJK: full certificate
-    r = guarded("gjk_distance_original", lambda: gjk.gjk_distance_original(A, B))
+    r = None if only_prim else guarded("gjk_distance_original", lambda: gjk.gjk_distance_original(A, B))
     if r is not None:
         v2 = []
         c01.check_distance_result(r, s, 1e-3, cls, v2)
@@ -142,7 +152,7 @@ def run_state(desc):
         if not (isinstance(r[4], (int, np.integer)) and r[4] >= 1):
             viol.append(_viol("gjk_distance_original", "iterations_field", cls, {"iterations": r[4]}))
     # ---- Nesterov, generic entry
-    for acc in (False, True):
+    for acc in (() if only_prim else (False, True)):
         name = "nesterov" + ("_acc" if acc else "")
         r = guarded(name, lambda: gjk.gjk_nesterov_accelerated(A, B, use_nesterov_acceleration=acc))
         if r is not None:
